@@ -81,8 +81,19 @@ Section Eval.
       end in
     go l None [].
 
+  (* a one-expression set is written as the expression; when that expression is itself a parenthesised list of two or
+     more expressions (Exps / Args), PostgreSQL reads "(a, b)" at the top level of GROUP BY as the set of a and b, not
+     as a row (manual, 7.2.4): the same grouping, so both are given the set form *)
+  Definition celem (x : exp) : cn :=
+    match x with
+    | EExprs ((_ :: _ :: _) as l) => CN "set" (map cexpr l)
+    | _ => cexpr x
+    end.
   Definition cset (s : list exp) : cn :=
-    match s with [x] => cexpr x | _ => CN "set" (map cexpr s) end.
+    match s with
+    | [x] => celem x
+    | _ => CN "set" (map cexpr s)
+    end.
   Definition cgroup (g : grouping exp) : cn :=
     if negb (nonempty (ge_type g)) then
       match ge_sets g with
@@ -91,7 +102,7 @@ Section Eval.
       end
     else
       match ge_sets g with
-      | [s] => CN "ge" (CS (ge_type g) :: map cexpr s)        (* TYPE (a, b): the one set lists the elements *)
+      | [s] => CN "ge" (CS (ge_type g) :: map celem s)        (* TYPE (a, b): the one set lists the elements *)
       | l => CN "ge" (CS (ge_type g) :: map cset l)
       end.
 
